@@ -236,9 +236,9 @@ def signature(op, impl, spec):
     obs = impl.split(" ")[0]
     if spec.startswith("SPEC:"):
         reason = spec[5:]
-        if e[0] == "close" and e[1] == "0" and obs == "ok":
+        if e[0] in ("close", "fire") and reason == "close-nil-must-panic" and obs != "panic:close-closed":
             return SIG_CLOSE_NIL
-        if e[0] in ("close", "fire") and obs == "panic:send-closed":
+        if e[0] in ("close", "fire") and reason == "close-open-must-not-panic" and obs == "panic:send-closed":
             return SIG_SELECT_SEND
         return "C03 %s %s impl=%s" % (e[0], reason, obs)
     return "C03 %s impl=%s spec=%s" % (e[0], obs, spec.split(" ")[0])
